@@ -12,9 +12,15 @@
 (*   CacheCoherent holds when the key is a function of the position        *)
 (*   (KeyMode = "retire") and fails for the stale-en-passant design        *)
 (*   (KeyMode = "accumulate": 1.a4 h6 2.a5 b5 / 1.a4 b5 2.a5 h6).          *)
+(*   SigMode is what the caches index by: "full" = the whole key (the      *)
+(*   code); "placement" = a signature that forgets the en-passant and      *)
+(*   castling features (second negative control: any cache index that is   *)
+(*   not injective on the visitable positions serves a stale answer; the   *)
+(*   truncated-key changes of the seeded rounds are of this kind).         *)
 (***************************************************************************)
 EXTENDS Engine, Json, IOUtils
-CONSTANT MaxDepth
+CONSTANTS MaxDepth, SigMode
+Sig(k) == IF SigMode = "full" THEN k ELSE { f \in k : f[1] = "pc" }
 Seeds == ndJsonDeserialize(IOEnv.SEEDS)
 SeedPos(i) == [b |-> Seeds[i].b, turn |-> Seeds[i].turn, rights |-> Seeds[i].rights, ep |-> Seeds[i].ep]
 VARIABLE seed
@@ -28,6 +34,6 @@ Reach(s, d) == IF d = 0 THEN {s}
 
 \* what the two caches hold for an engine state: legal moves and both attack maps
 Answers(s) == <<Legal(Abs(s)), AttackMap(s.b, W), AttackMap(s.b, Bl)>>
-Entries == { <<s.key, s.turn, Answers(s)>> : s \in Reach(SetUp(SeedPos(seed), 0, 1), MaxDepth) }
+Entries == { <<Sig(s.key), s.turn, Answers(s)>> : s \in Reach(SetUp(SeedPos(seed), 0, 1), MaxDepth) }
 CacheCoherent == Cardinality(Entries) = Cardinality({ <<e[1], e[2]>> : e \in Entries })
 =============================================================================
